@@ -18,6 +18,7 @@ the assigned target.
 from __future__ import annotations
 
 import ast
+import functools
 
 from . import paths
 from .core import AnalysisError, dotted, norm
@@ -33,11 +34,12 @@ def _names(e) -> set:
     return out
 
 
-def names_of_text(t: str) -> set:
+@functools.lru_cache(maxsize=None)
+def names_of_text(t: str) -> frozenset:
     try:
-        return _names(ast.parse(t, mode='eval').body)
+        return frozenset(_names(ast.parse(t, mode='eval').body))
     except SyntaxError:
-        return set()
+        return frozenset()
 
 
 def canon(atom, truth: bool = True):
@@ -87,6 +89,7 @@ class _Old(ast.NodeTransformer):
         return super().generic_visit(node)
 
 
+@functools.lru_cache(maxsize=None)
 def _rename(text, name, k):
     try:
         tree = ast.parse(text, mode='eval').body
@@ -126,11 +129,23 @@ def _targets(node):
     return []
 
 
+@functools.lru_cache(maxsize=None)
+def _subst_text(text, env_items):
+    tree = ast.parse(text, mode='eval').body
+    tree = _Subst(dict(env_items)).visit(tree)
+    ast.fix_missing_locations(tree)
+    return norm(tree)
+
+
 class Sym(paths.Domain):
     INIT = (frozenset(), frozenset(), None)
 
-    def __init__(self, substitute=True):
+    def __init__(self, substitute=True, fact_filter=None, store_filter=None):
+        """fact_filter(atom text) / store_filter(target text): keep only what the client needs
+        (fewer distinct states: facts and store entries never merge paths)."""
         self.substitute = substitute
+        self.fact_filter = fact_filter
+        self.store_filter = store_filter
 
     # --- client hooks
     def on_event(self, node, extra, facts: dict, store: dict):
@@ -144,11 +159,10 @@ class Sym(paths.Domain):
         if e is None:
             return 'None'
         if self.substitute:
-            env = {k: v for k, v in store.items() if '.' not in k and '@' not in v and not k.startswith('#') and not k.startswith('<')}
+            used = {x.id for x in ast.walk(e) if isinstance(x, ast.Name)}
+            env = {k: v for k, v in store.items() if k in used and '@' not in v}
             if env:
-                import copy
-                e = _Subst(env).visit(copy.deepcopy(e))
-                ast.fix_missing_locations(e)
+                return _subst_text(norm(e), tuple(sorted(env.items())))
         return norm(e)
 
     @staticmethod
@@ -185,6 +199,8 @@ class Sym(paths.Domain):
             fl = list(facts)
             # expressions that mention an assigned target now refer to its previous version
             for tname in sorted(assigned):
+                if self.store_filter is not None and not self.store_filter(tname) and not any(tname in names_of_text(ex) for ex in list(sd.values()) + list(vals.values())) and not any(tname in names_of_text(a) for a, _ in fl):
+                    continue
                 vk = f'#ver:{tname}'
                 k = int(sd.get(vk, '0'))
                 if k > 6:
@@ -201,7 +217,10 @@ class Sym(paths.Domain):
                 fl = [(_rename(a, tname, k) if tname in names_of_text(a) else a, tr) for a, tr in fl]
                 sd[vk] = str(k + 1)
             for k_, ex in vals.items():
-                sd[k_] = ex
+                if self.store_filter is None or self.store_filter(k_):
+                    sd[k_] = ex
+                else:
+                    sd.pop(k_, None)
             facts = frozenset(fl)
             store = frozenset(sd.items())
             # boolean flags become facts
@@ -219,10 +238,10 @@ class Sym(paths.Domain):
         sd = dict(store)
         a = atom
         if self.substitute:
-            env = {k: x for k, x in sd.items() if '.' not in k and '@' not in x and not k.startswith('#') and not k.startswith('<')}
+            used = {x.id for x in ast.walk(atom) if isinstance(x, ast.Name)}
+            env = {k: x for k, x in sd.items() if k in used and '@' not in x}
             if env:
-                import copy
-                a = _Subst(env).visit(copy.deepcopy(atom))
+                a = ast.parse(_subst_text(norm(atom), tuple(sorted(env.items()))), mode='eval').body
         t, tr = canon(a, truth)
         if (t, not tr) in facts:
             return ()
@@ -231,7 +250,8 @@ class Sym(paths.Domain):
             x, y = t.split(' > ', 1)
             if (f'{y} > {x}', True) in facts:
                 return ()
-        facts = facts | {(t, tr)}
+        if self.fact_filter is None or self.fact_filter(t):
+            facts = facts | {(t, tr)}
         extra = self.on_assume(t, tr, extra, dict(facts), sd)
         return ((facts, store, extra),)
 
@@ -292,3 +312,23 @@ def lin_eq(a, b) -> bool:
     ka = {k: v for k, v in a.items() if v}
     kb = {k: v for k, v in b.items() if v}
     return ka == kb
+
+
+def slice_locals(fn, seeds) -> set:
+    """Local names whose values flow (through assignments in fn) into the seed expressions."""
+    want = set()
+    for e in seeds:
+        want |= {x.id for x in ast.walk(e) if isinstance(x, ast.Name)}
+    changed = True
+    while changed:
+        changed = False
+        for n in ast.walk(fn):
+            tg = _targets(n)
+            if not tg or getattr(n, 'value', None) is None:
+                continue
+            if any(isinstance(t, ast.Name) and t.id in want for t in tg):
+                new = {x.id for x in ast.walk(n.value) if isinstance(x, ast.Name)} - want
+                if new:
+                    want |= new
+                    changed = True
+    return want
